@@ -42,6 +42,8 @@ def universe():
         ('(1.0,)', (1.0,)), ('[]', []), ('[1]', [1]), ("[1,'a']", [1, 'a']), ('[None]', [None]),
         ('{}', {}), ('{}#2', {}), ("{'a':1}", {'a': 1}), ("{'a':1.0}", {'a': 1.0}), ("{'a':1,'b':None}", {'a': 1, 'b': None}), ("{'b':1}", {'b': 1}),
         ("{'a':nan}", {'a': nan2}), ('((1,),2)', ((1,), 2)), ('[(1,),{}]', [(1,), {}]), ("{'a':{'b':1}}", {'a': {'b': 1}}),
+        ("{'a':1,'b':2}", {'a': 1, 'b': 2}), ("{'b':1,'a':2}", {'b': 1, 'a': 2}), ("{'b':2,'a':1}", {'b': 2, 'a': 1}), ("{'b':3,'a':0}", {'b': 3, 'a': 0}),
+        ("({'b':1,'a':2},)", ({'b': 1, 'a': 2},)), ("({'a':1,'b':2},)", ({'a': 1, 'b': 2},)), ("[{'b':2,'a':1}]", [{'b': 2, 'a': 1}]), ("[{'a':2,'b':1}]", [{'a': 2, 'b': 1}]),
         ('3', 3), ('2', 2), ("'ab'", 'ab'), ('(None,)', (None,)), ('[[]]', [[]]), ('timedelta', datetime.timedelta(1)),
     ]
     return U
